@@ -180,7 +180,7 @@ OnBegin(g, e) ==
       (* C15: after an assignment no NEW task may begin at or above the limit in force *)
       vlim == IF g.sizeFixed \/ g.size = Inf THEN {}
               ELSE ChkK("C15.limit", e.id, live2 <= g.size,
-                        IF g.implBase = Inf \/ live2 <= g.implBase THEN "KF-B.set" ELSE "")
+                        IF g.implBase = Inf \/ live2 <= g.implBase + Card(DOMAIN g.R) THEN "KF-B.set" ELSE "")
   IN Out(g2, vs \cup vlim, Hit("C04.tasks", TRUE) \cup Hit("C10.member", TRUE) \cup Hit("C11.name", TRUE)
                             \cup Hit("C15.limit", ~g.sizeFixed))
 
@@ -223,6 +223,17 @@ OnCbOut(g, e, which) ==
                    !.anyExc = @ \/ e.how = "exc",
                    !.cbCanc = @ \/ e.how = "canc"],
          Chk("C03.done", e.id, ok), Hit("C12.callback", e.how = "exc"))
+
+ReqComplete(g, r) ==      \* every invocation / element of an accepted request has been turned into a call
+  LET q == g.R[r] IN
+  q.cancelled \/ (IF q.kind = "start" THEN g.R[-1].calls >= g.R[-1].num \/ (\E x \in DOMAIN g.R : g.R[x].cancelled)
+                  ELSE q.calls = q.num /\ (q.kind \in MapKinds => q.stopSeen))
+ReqDone(g, r) ==          \* definitely nothing left to do for request r (conservative)
+  LET q == g.R[r] IN
+  q.cancelled \/ (IF q.kind = "start" THEN Card({id \in g.C : g.T[id].grp = q.gname}) >= q.num
+                  ELSE q.calls = q.num /\ (q.kind \in MapKinds => q.stopSeen)
+                       /\ Card(q.begunJ) + Card({id \in g.C : ~g.T[id].began /\ g.T[id].grp = q.gname}) >= q.calls - q.raised)
+ReqKfE(g, r) == IF g.R[r].kind = "start" THEN g.R[-1].kfE ELSE g.R[r].kfE
 
 (* ---- 4. operations ------------------------------------------------------------------------------ *)
 SameObs(g, e) == e.o = g.lastO /\ ~Has(e, "al") /\ ~Has(e, "G")
@@ -330,13 +341,16 @@ OnLockUnlock(g, e) ==
       (* lock() issued from inside func, i.e. between the call and the pool's own lock check: signature of KF-E *)
       atCall == e.name = "lock" /\ e.where # "gap" /\ g.lastCall \in DOMAIN g.R
                 /\ g.R[g.lastCall].kind \in {"apply", "simple"}
-      g1 == IF atCall THEN [g EXCEPT !.R = Upd(g.R, g.lastCall, [g.R[g.lastCall] EXCEPT !.kfE = TRUE])] ELSE g
+      g0 == IF atCall THEN [g EXCEPT !.R = Upd(g.R, g.lastCall, [g.R[g.lastCall] EXCEPT !.kfE = TRUE])] ELSE g
+      (* unlock() while gather_and_close() is pending defeats the closing protocol: outside every property *)
+      misuse == e.name = "unlock" /\ \E h \in DOMAIN g.H : g.H[h].kind = "gac" /\ g.H[h].st \in {"created", "begun"}
+      g1 == IF misuse THEN [g0 EXCEPT !.void = TRUE] ELSE g0
   IN Out(g1, Chk("C09.lock", -1, e.res = "ok" /\ o[5] = want /\ o[1] = l[1] /\ o[2] = l[2] /\ o[3] = l[3]
                                  /\ o[4] = l[4] /\ o[6] = l[6] /\ ~Has(e, "al") /\ ~Has(e, "G")),
          Hit("C09.lock", TRUE) \cup Hit("C09.idem", l[5] = want))
 
 OnSetSize(g, e) ==
-  LET inflight == g.alive # {}
+  LET inflight == g.alive # {} \/ \E r \in DOMAIN g.R : r >= 0 /\ g.R[r].acc /\ ~ReqDone(g, r)
       busy == g.lastO[1] + g.lastO[2]
   IN IF e.n < 0
      THEN Out(g, Chk("C15.neg", -1, e.res = "ValueError" /\ SameObs(g, e)), Hit("C15.neg", TRUE))
@@ -387,15 +401,11 @@ Settled(g) == {id \in g.C : g.T[id].settled}
 OnHBegin(g, e) ==
   LET h == g.H[e.h]
       overlap == e.kind = "gac" /\ \E x \in DOMAIN g.H : g.H[x].kind = "gac" /\ g.H[x].st = "begun" IN
-  Out([g EXCEPT !.H = Upd(g.H, e.h, [h EXCEPT !.st = "begun", !.overlap = overlap, !.mustF = Settled(g) \ g.forgot,
+  Out([g EXCEPT !.H = Upd([x \in DOMAIN g.H |-> IF overlap /\ g.H[x].kind = "gac" /\ g.H[x].st = "begun"
+                                                THEN [g.H[x] EXCEPT !.overlap = TRUE] ELSE g.H[x]],
+                          e.h, [h EXCEPT !.st = "begun", !.overlap = overlap, !.mustF = Settled(g) \ g.forgot,
                                                !.reqs = {r \in DOMAIN g.R : g.R[r].acc /\ r >= 0},
                                                !.tasks = g.C])], {}, {})
-
-ReqComplete(g, r) ==      \* every invocation / element of an accepted request has been turned into a call
-  LET q == g.R[r] IN
-  q.cancelled \/ (IF q.kind = "start" THEN g.R[-1].calls >= g.R[-1].num \/ (\E x \in DOMAIN g.R : g.R[x].cancelled)
-                  ELSE q.calls = q.num /\ (q.kind \in MapKinds => q.stopSeen))
-ReqKfE(g, r) == IF g.R[r].kind = "start" THEN g.R[-1].kfE ELSE g.R[r].kfE
 
 OnHDone(g, e) ==
   LET h == g.H[e.h]
@@ -513,15 +523,14 @@ Post(g, e) ==
       implFree == IF g.implBase = Inf THEN Inf ELSE g.implBase - (run + canc)
       nReq == Card(DOMAIN g.R)
       vGet == ChkK("C15.get", -1, szobs = g.size,
-                   IF g.implBase # Inf /\ szobs <= implFree /\ szobs >= implFree - nReq THEN "KF-B.get" ELSE "")
+                   IF g.implBase # Inf /\ szobs <= implFree + nReq /\ szobs >= implFree - nReq THEN "KF-B.get" ELSE "")
       vConc == UNION {IF g.R[r].kind \in MapKinds /\ g.R[r].acc
                       THEN Chk("C05.conc", r, Card(LiveOf(g, r)) <= g.R[r].nc) ELSE {} : r \in DOMAIN g.R}
       (* work conservation at quiet idle points *)
       vWork == IF quiet /\ ~full /\ ~g.closed
                THEN UNION {IF g.R[r].kind \in MapKinds /\ g.R[r].acc /\ ~g.R[r].cancelled /\ ~g.R[r].stopSeen
-                              /\ g.R[r].calls < g.R[r].num
-                           THEN ChkK("C05.work", r, Card(LiveOf(g, r)) = g.R[r].nc,
-                                     IF ~g.sizeFixed THEN "KF-B.set" ELSE "") ELSE {} : r \in DOMAIN g.R}
+                              /\ g.R[r].calls < g.R[r].num /\ g.sizeFixed
+                           THEN Chk("C05.work", r, Card(LiveOf(g, r)) = g.R[r].nc) ELSE {} : r \in DOMAIN g.R}
                ELSE {}
       blocked == {r \in DOMAIN g.R : r >= 0 /\ g.R[r].acc /\ ~g.R[r].cancelled /\ ~g.R[r].kfE
                                       /\ g.R[r].kind \in {"apply"} /\ g.R[r].calls - g.R[r].raised > Card(g.R[r].begunJ)
